@@ -27,7 +27,7 @@ STATUS = [
  ('C17', 'Kahn: nodup, sources first, drivers first, complete (unconnected pins), levels, line order, reverse = mirror; **fan-in**: fanin_order, nodup, sound, complete_comb, exact_comb, unfold / comb_node / seq_node; prefix lookup lists integer keys in numeric order; wf_netlist_b/acyclic_b/acyclic_rev_b sound', 'C (exact sequences; _locs results) + graph/ground-truth oracles', 'regular-expression generality of _locs'),
  ('C18', '**text level**: exact accepted language (text_language, converse included), ignored blocks skipped iff balanced, layout / ignored statements irrelevant, parse/print round trip, chains / groups / calls as written; scan load/unload position with inversion parity, pi/po groups, interface = s_nodes, loc transition, per-pattern columns -- restated from TEXT; refutations for the pinned code', 'C (stil.parse vs parse_stil on generated / mutated / malformed / probe texts; patterns, maps, tests, responses, tests_loc) + ground truth', 'lark itself; the logic simulation inside tests_loc is an input of the model'),
  ('C19', 'pins once, names unique/expand, datasheet function of every family cell on all rows (regenerated libraries); **text_matches_translation** (Coq transcription of TechLib.__init__ on the five library strings = translated cell lists), expand_names = itertools product in order, exact distinctness condition (+ collision witness)', 'T (library strings emitted verbatim; TechLibs) + exhaustive C against TechLib.cells + TechLib(text) on generated library texts', 'family spec is trusted'),
- ('C20', 'wildcard resolution (structural + nearest-value iff), via location, via arrays (members iff, count, order, NoDup), per-layer/per-type listings, ROUTED accumulation, ROW arithmetic', 'C (listings, points, vias) + ground truth of generated DEF texts', 'DEF grammar and transformer callbacks'),
+ ('C20', '**text level** (text read as its word list, every writing of a well-formed tree parses to it, round trip); **callbacks** (every COMPONENTS / PINS / VIAS / NETS / SPECIALNETS statement exactly once in statement order, last wins on repeated names; rows / tracks / units in order; header / DIEAREA; points, nets, wires as written); wildcard resolution (structural + nearest-value iff), via location, via arrays (members iff, count, order, NoDup), per-layer/per-type listings, ROUTED accumulation, ROW arithmetic; composition def_of_text', "C (per callback, per file, text vs lark incl. rejected texts, lark's scanner tables; listings, points, vias) + ground truth of generated DEF texts", "lark's LALR table construction; code points >= 256"),
 ]
 
 
